@@ -42,10 +42,12 @@ enum Call {
     MpRemoveAdd,
     /// remove the shared bar (other threads keep calling into it) and add it again
     MpRemoveShared,
+    /// re-insert the shared bar relative to itself / relative to a fresh sibling (both documented as allowed)
+    MpReinsert,
 }
 
 fn gen_call(rng: &mut Rng, multi: bool) -> Call {
-    let n = if multi { 17 } else { 12 };
+    let n = if multi { 19 } else { 12 };
     match rng.below(n) {
         0 | 1 => Call::Update,
         2 => Call::Tick,
@@ -61,7 +63,8 @@ fn gen_call(rng: &mut Rng, multi: bool) -> Call {
         12 => Call::MpPrintln,
         13 => Call::MpAddDrop,
         14 => Call::MpRemoveAdd,
-        _ => Call::MpRemoveShared,
+        15 | 16 => Call::MpRemoveShared,
+        _ => Call::MpReinsert,
     }
 }
 
@@ -100,6 +103,21 @@ fn do_call(c: &Call, pb: &ProgressBar, mp: &Option<MultiProgress>) {
             if let Some(mp) = mp {
                 mp.remove(pb);
                 let _ = mp.add(pb.clone());
+            }
+        }
+        Call::MpReinsert => {
+            if let Some(mp) = mp {
+                // (anchors are bars private to this thread: a shared anchor could be removed by another
+                // thread in the meantime, and inserting relative to a non-member is a usage error)
+                let sib = mp.add(ProgressBar::with_draw_target(Some(3), ProgressDrawTarget::hidden()));
+                sib.tick();
+                // the anchor is the inserted bar itself
+                let _ = mp.insert_after(&sib, sib.clone());
+                let _ = mp.insert_before(&sib, sib.clone());
+                // the shared bar moves next to the private one
+                let _ = mp.insert_after(&sib, pb.clone());
+                let _ = mp.insert_before(&sib, pb.clone());
+                drop(sib);
             }
         }
         Call::MpRemoveAdd => {
@@ -232,7 +250,12 @@ fn find_deadlock(s: &vh::Snapshot) -> Option<String> {
     let mut waits: BTreeMap<u32, (Vec<u32>, String)> = BTreeMap::new();
     for (t, w) in &s.waiting {
         match w {
-            vh::WaitFor::Lock { lock, class, .. } => {
+            vh::WaitFor::Lock { lock, class, mode } => {
+                // a thread blocked on a lock it holds itself (std locks are not re-entrant) waits for ever
+                // (a second read of a read-held RwLock is the one combination that may go through)
+                if s.held.iter().any(|(l, v)| l == lock && v.iter().any(|(th, m)| th == t && !(*m == vh::Mode::Read && *mode == vh::Mode::Read))) {
+                    return Some(format!("thread {t} waits for lock {} which it holds itself", short(class)));
+                }
                 let holders: Vec<u32> = s.held.iter().filter(|(l, _)| l == lock).flat_map(|(_, v)| v.iter().map(|(th, _)| *th)).filter(|h| h != t).collect();
                 if !holders.is_empty() {
                     waits.insert(*t, (holders, format!("lock {}", short(class))));
